@@ -16,6 +16,11 @@ Import ListNotations.
 Lemma sites_classified : forallb (classified_ok map_range_exceptions) map_range_sites = true.
 Proof. vm_compute. reflexivity. Qed.
 
+(* the same for the packages of github.com/nyaruka/gocommon that goflow imports: accepted shape, reviewed exception, or a
+   KNOWN finding (order-dependent code goflow cannot repair; the driver's probe reports it on every run) *)
+Lemma dep_sites_classified : forallb (classified_ok dep_map_range_exceptions) dep_map_range_sites = true.
+Proof. vm_compute. reflexivity. Qed.
+
 Lemma sites_unclassified_none : unclassified map_range_exceptions map_range_sites = [].
 Proof. vm_compute. reflexivity. Qed.
 
@@ -362,6 +367,18 @@ Definition reason_statement (r : reason) : Prop :=
       forall (h : K -> V -> option I -> I) (st : list (cell K I)) (l1 l2 : list (K * V)),
       NoDup (map fst l1) -> Permutation l1 l2 ->
       state_equiv K I keq (run_loop K V I keq [SUpdateAtKey 0 h] st l1) (run_loop K V I keq [SUpdateAtKey 0 h] st l2)
+  | RKnownFinding _ =>
+      (* nothing is claimed invariant: the shapes such sites have (last-writer-wins assignment, first match) ARE order-dependent *)
+      (exists (body : list (stmt N N N)) (l1 l2 : list (N * N)),
+         NoDup (map fst l1) /\ Permutation l1 l2 /\
+         run_loop N N N N.eqb body [CFlag None] l1 <> run_loop N N N N.eqb body [CFlag None] l2)
+  | RCanonicalKeyWrite =>
+      (* partial: needs the key transformer to be injective on the keys *)
+      forall (K V K2 V2 : Type) (keq2 : K2 -> K2 -> bool), (forall a b, keq2 a b = true <-> a = b) ->
+      forall (f : K -> K2) (g : K -> V -> V2) (l1 l2 : list (K * V)),
+      (forall a b, In a (map fst l1) -> In b (map fst l1) -> f a = f b -> a = b) ->
+      NoDup (map fst l1) -> Permutation l1 l2 ->
+      forall k, lookup keq2 k (build_map keq2 f g l1) = lookup keq2 k (build_map keq2 f g l2)
   | RPureCalleeReviewed =>
       (* with the callee a function of (k, v), the body is made of accepted statements: the loop-body theorem *)
       forall (K V I : Type) (keq : K -> K -> bool) (ieq : I -> I -> bool),
@@ -401,12 +418,15 @@ Proof.
       apply (build_map_perm_invariant str_eqb str_eqb_spec (fun k => k) tx l1 l2); try assumption. intros a b _ _ E. exact E.
   - (* RKeyPartitioned *) intros K V I keq ieq Hk Hi h st l1 l2 Hnd Hp.
     apply (safe_body_perm_invariant K V I keq ieq Hk Hi); try assumption. reflexivity.
+  - (* RKnownFinding *) exact assign_outer_refuted.
+  - (* RCanonicalKeyWrite *) intros K V K2 V2 keq2 Hk f g l1 l2 Hinj Hnd Hp.
+    apply (build_map_perm_invariant keq2 Hk f g l1 l2); assumption.
   - (* RPureCalleeReviewed *) intros K V I keq ieq Hk Hi body st l1 l2 Hb Hnd Hp.
     apply (safe_body_perm_invariant K V I keq ieq Hk Hi); assumption.
 Qed.
 
 (* every entry of the committed table carries a reason whose statement is proved *)
-Theorem exceptions_justified : forall e, In e map_range_exceptions -> reason_statement (x_reason e).
+Theorem exceptions_justified : forall e, In e (map_range_exceptions ++ dep_map_range_exceptions) -> reason_statement (x_reason e).
 Proof. intros e _. apply reasons_sound. Qed.
 
 (* the partial reasons' side conditions are satisfiable *)
